@@ -125,11 +125,20 @@ impl Reporter {
         self.violations.len()
     }
 
+    /// Like `finish`, but every output line goes through `emit` (for binaries that have redirected stdout).
+    pub fn finish_with(self, emit: impl Fn(&str)) -> i32 {
+        self.finish_impl(&emit)
+    }
+
     /// Writes evidence + replay files, prints the KNOWN-FINDING / VIOLATION lines, returns the exit code.
-    pub fn finish(mut self) -> i32 {
+    pub fn finish(self) -> i32 {
+        self.finish_impl(&|l: &str| println!("{l}"))
+    }
+
+    fn finish_impl(mut self, emit: &dyn Fn(&str)) -> i32 {
         let wall = self.start.elapsed().as_secs_f64();
         for (sig, (desc, n)) in &self.known_hits {
-            println!("KNOWN-FINDING: property={} {} ({}; {} cases)", self.property, sig, desc, n);
+            emit(&format!("KNOWN-FINDING: property={} {} ({}; {} cases)", self.property, sig, desc, n));
         }
         let mut replay_paths = Vec::new();
         for v in &self.violations {
@@ -144,9 +153,9 @@ impl Reporter {
                 "replay": v.replay,
             });
             let _ = std::fs::write(&path, serde_json::to_string_pretty(&body).unwrap());
-            println!("VIOLATION property={} replay={}", self.property, path.display());
-            println!("  signature: {}", v.signature);
-            println!("  {}", v.description);
+            emit(&format!("VIOLATION property={} replay={}", self.property, path.display()));
+            emit(&format!("  signature: {}", v.signature));
+            emit(&format!("  {}", v.description));
             replay_paths.push(path.display().to_string());
         }
         if !self.coverage.contains_key("samples") {
@@ -175,19 +184,13 @@ impl Reporter {
         std::fs::write(&tmp, serde_json::to_string_pretty(&ev).unwrap()).expect("write evidence");
         std::fs::rename(&tmp, &path).expect("rename evidence");
         if !self.machinery_errors.is_empty() {
-            eprintln!("{} machinery error(s); this run is not a verdict", self.machinery_errors.len());
+            emit(&format!("MACHINERY-ERROR: {} machinery error(s); this run is not a verdict: {}", self.machinery_errors.len(), self.machinery_errors.first().cloned().unwrap_or_default()));
             return 2;
         }
         if !self.violations.is_empty() {
             return 1;
         }
-        println!(
-            "OK property={} tier={} wall={:.1}s {}",
-            self.property,
-            self.tier.name(),
-            wall,
-            summary(&self.coverage)
-        );
+        emit(&format!("OK property={} tier={} wall={:.1}s {}", self.property, self.tier.name(), wall, summary(&self.coverage)));
         0
     }
 }
